@@ -83,16 +83,19 @@ def Outcome.acceptable : Outcome → Prop
   | .hang s => s = "css parser" ∨ s = "css parser (document)"
   | .panic _ => False
 
-/-- **C01 on the whole model pipeline**: for every document (a DOM rooted at a document node, as html5ever produces),
-    every configuration, decorator, width, agent/user/document CSS: the outcome is lines, `TooNarrow`, a CSS parse error,
-    or the CSS parser running out of fuel — the DOM → render tree pass never fails, its trees are renderable, and the
-    renderer never panics or hangs -/
-theorem renderDom_acceptable (cfg : Cfg) (d : Deco) (w : Nat) (useDoc : Bool) (agentCss userCss : Option (List Char))
-    (ci : CharInfo) (depth : Nat) (kids : List Node) :
-    (renderDom cfg d w useDoc agentCss userCss ci depth (.doc kids)).acceptable := by
+/-- the shape of `renderDom`: whatever holds of the three CSS error outcomes and of the outcome of rendering any
+    `tableOk` tree holds of the pipeline's outcome (the DOM → render tree pass never fails and only yields such trees) -/
+theorem renderDom_ind (P : Outcome → Prop) (cfg : Cfg) (d : Deco) (w : Nat) (useDoc : Bool) (agentCss userCss : Option (List Char))
+    (ci : CharInfo) (depth : Nat) (kids : List Node)
+    (h1 : P .cssErr) (h2 : P (.hang "css parser")) (h3 : P (.hang "css parser (document)"))
+    (h4 : ∀ tree, tableOk tree = true → P (match renderTree cfg d w tree with
+      | .ok ls => .lines ls
+      | .error .tooNarrow => .narrow
+      | .error (.panic s) => .panic s
+      | .error (.hang s) => .hang s)) :
+    P (renderDom cfg d w useDoc agentCss userCss ci depth (.doc kids)) := by
   unfold renderDom
   simp only []
-  -- agent CSS
   split
   · rename_i o ho
     cases agentCss with
@@ -101,10 +104,9 @@ theorem renderDom_acceptable (cfg : Cfg) (d : Deco) (w : Nat) (useDoc : Bool) (a
       simp only at ho
       split at ho
       · simp at ho
-      · injection ho with ho; subst ho; trivial
-      · injection ho with ho; subst ho; exact Or.inl rfl
-  · -- user CSS
-    split
+      · injection ho with ho; subst ho; exact h1
+      · injection ho with ho; subst ho; exact h2
+  · split
     · rename_i o ho
       cases userCss with
       | none => simp at ho
@@ -112,19 +114,17 @@ theorem renderDom_acceptable (cfg : Cfg) (d : Deco) (w : Nat) (useDoc : Bool) (a
         simp only at ho
         split at ho
         · simp at ho
-        · injection ho with ho; subst ho; trivial
-        · injection ho with ho; subst ho; exact Or.inl rfl
-    · -- document CSS
-      split
+        · injection ho with ho; subst ho; exact h1
+        · injection ho with ho; subst ho; exact h2
+    · split
       · rename_i o ho
-        -- the fold only ever produces the document-CSS hang as an error
-        have key : ∀ (l : List (List Ch)) (acc : Except Outcome (List Css.Rule)), (∀ o', acc = .error o' → o'.acceptable) →
+        have key : ∀ (l : List (List Ch)) (acc : Except Outcome (List Css.Rule)), (∀ o', acc = .error o' → P o') →
             ∀ o', l.foldl (fun acc t => match acc with
               | .error o => .error o
               | .ok rs => match Css.doAddCss (t.map fun c => Char.ofNat c.cp) with
                 | .ok r => .ok (rs ++ r)
                 | .err => .ok rs
-                | .hang => .error (.hang "css parser (document)")) acc = .error o' → o'.acceptable := by
+                | .hang => .error (.hang "css parser (document)")) acc = .error o' → P o' := by
           intro l
           induction l with
           | nil => intro acc h o' e; exact h o' e
@@ -140,13 +140,12 @@ theorem renderDom_acceptable (cfg : Cfg) (d : Deco) (w : Nat) (useDoc : Bool) (a
               split at e2
               · simp at e2
               · simp at e2
-              · injection e2 with e2; subst e2; exact Or.inr rfl
+              · injection e2 with e2; subst e2; exact h3
         split at ho
         all_goals first
           | exact key _ _ (by intro o' e; simp at e) o ho
           | (injection ho)
-      · -- build and render
-        split
+      · split
         · rename_i hb
           obtain ⟨tree, hb', _⟩ := build_doc _ [] 0 kids
           rw [hb'] at hb; simp at hb
@@ -156,12 +155,44 @@ theorem renderDom_acceptable (cfg : Cfg) (d : Deco) (w : Nat) (useDoc : Bool) (a
         · rename_i tree hb
           have hok := build_ok _ (.doc kids) [] 0 tree hb
           simp only [hok, Bool.not_true, Bool.false_eq_true, if_false]
-          have hs := renderTree_total cfg d w tree hok
-          cases hr : renderTree cfg d w tree with
-          | ok ls => trivial
-          | error e =>
-            have := hs e hr
-            subst this
-            trivial
+          exact h4 tree hok
+
+/-- **C01 on the whole model pipeline**: for every document (a DOM rooted at a document node, as html5ever produces),
+    every configuration, decorator, width, agent/user/document CSS: the outcome is lines, `TooNarrow`, a CSS parse error,
+    or the CSS parser running out of fuel — the DOM → render tree pass never fails, its trees are renderable, and the
+    renderer never panics or hangs -/
+theorem renderDom_acceptable (cfg : Cfg) (d : Deco) (w : Nat) (useDoc : Bool) (agentCss userCss : Option (List Char))
+    (ci : CharInfo) (depth : Nat) (kids : List Node) :
+    (renderDom cfg d w useDoc agentCss userCss ci depth (.doc kids)).acceptable := by
+  apply renderDom_ind Outcome.acceptable
+  · trivial
+  · exact Or.inl rfl
+  · exact Or.inr rfl
+  · intro tree hok
+    have hs := renderTree_total cfg d w tree hok
+    cases hr : renderTree cfg d w tree with
+    | ok ls => trivial
+    | error e =>
+      have := (hs e hr).1
+      subst this
+      trivial
+
+/-- **C11 on the whole model pipeline**: with `allow_width_overflow` and a width of at least 1, every document renders —
+    the outcome is lines unless user/agent CSS is rejected or the CSS parser runs out of fuel; it is never `TooNarrow` -/
+theorem renderDom_overflow (cfg : Cfg) (d : Deco) (w : Nat) (useDoc : Bool) (agentCss userCss : Option (List Char))
+    (ci : CharInfo) (depth : Nat) (kids : List Node) (hov : cfg.overflow = true) (hw : 1 ≤ w) :
+    ∀ o, renderDom cfg d w useDoc agentCss userCss ci depth (.doc kids) = o → (match o with | .narrow => False | _ => True) := by
+  intro o ho
+  subst ho
+  apply renderDom_ind (fun o => match o with | .narrow => False | _ => True)
+  · trivial
+  · trivial
+  · trivial
+  · intro tree hok
+    have hs := renderTree_total cfg d w tree hok
+    have hc : (cfg.overflow && decide (w ≠ 0)) = true := by simp [hov]; omega
+    rw [hc] at hs
+    obtain ⟨ls, hls⟩ := hs.is_ok
+    simp [hls]
 
 end H2T
